@@ -389,10 +389,15 @@ func overlap(a0, a1, b0, b1 int) bool { return a0 < a1 && b0 < b1 && a0 < b1 && 
 func TestC53(t *testing.T) {
 	m := mon.New(t, "C53")
 	defer m.Done()
-	m.Rule("exhaustive over the stated space: for every function (chacha20.XORKeyStream on a fresh cipher, on a cipher primed by a 1/17/63/65/100-byte call (63/47/1/63/28 key-stream bytes buffered; lengths equal to and one above the buffered amount are added, so calls fit in, exhaust and straddle the buffer) and after SetCounter; salsa20.XORKeyStream 8/24-byte nonce, xts.Encrypt/Decrypt, cipher.AEAD Seal/Open for chacha and xchacha on every path, secretbox/box(+AfterPrecomputation, Anonymous)/sign Seal|Sign and Open; salsa/salsa.XORKeyStream for exact/disjoint only) and every length in {1,15,16,17,63,64,65,200,1000} (xts: {16,32,48,64,80,208,1008}) the input sits at a fixed place of one guard-bordered arena and the output window starts at every offset -64..+64 from it, with dst prefix/capacity variations (empty prefix exact capacity, 5-byte prefix, spare capacity, capacity one byte short; stream functions: out longer than in where documented); AEAD additionally with the additional data placed at every offset -64..+64 from the output window. Expectation from the documentation, computed by the harness's own interval arithmetic: same start with the documented form (out==in, dst=in[:0]) or disjoint => no panic and the separate-buffer result; any other overlap => panic or the separate-buffer result (an authentication error from an Open-type function is recorded as failed-closed), never a wrong result without panic; no byte outside the output window may change. distinct = (function, path, length, expectation class, variation)")
+	m.Rule("exhaustive over the stated space: for every function (chacha20.XORKeyStream on a fresh cipher, on a cipher primed by a 1/17/63/65/100-byte call (63/47/1/63/28 key-stream bytes buffered; lengths equal to and one above the buffered amount are added, so calls fit in, exhaust and straddle the buffer) and after SetCounter; salsa20.XORKeyStream 8/24-byte nonce, xts.Encrypt/Decrypt, cipher.AEAD Seal/Open for chacha and xchacha on every path, secretbox/box(+AfterPrecomputation, Anonymous)/sign Seal|Sign and Open; salsa/salsa.XORKeyStream for exact/disjoint only) and every length in {1,15,16,17,63,64,65,200,1000} (xts: {16,32,48,64,80,208,1008}) the input sits at a fixed place of one guard-bordered arena and the output window starts at every offset -64..+64 from it, with dst prefix/capacity variations (empty prefix exact capacity, 5-byte prefix, spare capacity, capacity one byte short; stream functions: out longer than in where documented); AEAD additionally with the additional data placed at every offset -64..+64 from the output window. Expectation from the documentation, computed by the harness's own interval arithmetic: same start with the documented form (out==in, dst=in[:0]) or disjoint => no panic and the separate-buffer result; any other overlap => panic or the separate-buffer result (an authentication error from an Open-type function is recorded as failed-closed), never a wrong result without panic; no byte outside the output window may change. A concurrency stream repeats in-place, disjoint and inexactly overlapping calls from 8 goroutines at once, each in its own buffers: on shared values where sharing is legitimate (one cipher.AEAD, one *xts.Cipher, the salsa20 package function) and on one value per goroutine (AEAD, *chacha20.Cipher, *xts.Cipher), in a parallel pass and a GOMAXPROCS(1) pass, results judged after join against precomputed references. distinct = (function, path, length, expectation class, variation)")
 	m.Assume("reference = the same function on separate heap buffers, cross-checked where an independent oracle exists (RFC 8439 spec for chacha20/AEAD, libsodium " + sodiumaead.Version() + " for salsa20, secretbox, box, sign); xts has no independent oracle here (C13's concern)")
 	m.Assume("an Open-type function that returns its authentication error (no plaintext) for a forbidden overlap has failed closed: recorded (forbidden_overlap_failed_closed), not a violation — observed for the asm AEAD Open when dst overlaps only the tag bytes of the ciphertext")
 
+	if mon.RaceBuild {
+		// -race build: only the concurrency stream
+		c53Concurrent(m, paths())
+		return
+	}
 	fns := c53Functions()
 	// unit list: (function, length) for the in/out enumeration, then (AEAD function, length) for the ad enumeration
 	type unit struct {
@@ -607,6 +612,7 @@ func TestC53(t *testing.T) {
 	if m.Get("forbidden_overlap_failed_closed") > 0 {
 		m.Note("observed (accepted, not a violation): an Open-type function returned its authentication error, without panic, for an authentic input presented with a forbidden overlap; see the forbidden_overlap_failed_closed:<function> counters (asm AEAD Open with dst overlapping only the tag: the assembly writes the plaintext before it compares the tag, and the alias check excludes the tag bytes)")
 	}
+	c53Concurrent(m, paths())
 	nAEAD := 4 // Seal/Open x chacha/xchacha per path
 	for _, p := range []string{"asm", "generic", "purego"} {
 		m.Gate(p+"_exact_calls", nAEAD*len(c53Lens)*2, "AEAD in-place calls (dst = in[:0]) on the "+p+" path")
